@@ -460,6 +460,20 @@ def rule_r7_plain(ctx, prog, rule="R7"):
                     if not okret:
                         ok = False
                         detail = "the returned value is not the index variable updated with the running extremum"
+                    # the pair starts consistent: the running value is seeded with the element at the seed index, i.e. the
+                    # logical first element (the seed index is the all-zero index, checked by initial-index)
+                    from .rules_terms import unwrap_try
+                    from .facts import walk as _walk
+                    for dd in b.defs_of(got["1"]):
+                        if dd[0] == "entry":
+                            continue
+                        e0 = strip(b.def_expr(got["1"], dd))
+                        if any(isinstance(x_, tuple) and x_[0] == "call" and x_[1] == "next" for x_ in _walk(e0)):
+                            continue
+                        seed = unwrap_try(e0)
+                        if not (isinstance(seed, tuple) and seed[0] == "call" and seed[1] == "first" and strip(seed[3][0])[:2] == ("param", 1)):
+                            ok = False
+                            detail = "the running value is seeded with `%s`, not with self.first(): it does not belong to the seed index" % fmt(seed)[:80]
             ctx.ob(rule, "%s/index-value-pairing" % name, ok, root.where(), detail, what="index not paired with the extremum")
             rule_initial_index(ctx, prog, root, name, rule)
     return len(PLAIN)
